@@ -135,6 +135,9 @@ class Stub(types.SimpleNamespace):
     pass
 
 
+STUBS_USED = []
+
+
 def build(v, memo=None):
     if isinstance(v, dict):
         if "__array__" in v:
@@ -160,6 +163,7 @@ def build(v, memo=None):
                     return o
                 except Exception:
                     pass
+            STUBS_USED.append(cls)
             return Stub(**fields)
         if "__symlist__" in v:
             items = v.get("items") or []
@@ -226,6 +230,10 @@ def replay_contract(model, function, requires, ensures, ghost_code="", call="aut
                 allowed = True
         if allowed:
             print("the contract allows this exception on this input")
+            return 0
+        if STUBS_USED:
+            print("arguments contain stand-in objects (%s): an exception of the real function is not conclusive"
+                  % ", ".join(sorted(set(STUBS_USED))))
             return 0
         print("VIOLATED: exception not permitted by the contract on this input")
         return 1
